@@ -975,7 +975,21 @@ class Shelxfile():
         Adds a new SHELX card to the reslist after linenum.
         e.g. shx.add_line(shx.unit.position, 'ANIS')
         """
-        self._reslist.insert(linenum + 1, line)
+        self._insert_into_reslist(linenum + 1, line)
+
+    def _insert_into_reslist(self, index: int, item) -> None:
+        """
+        Inserts item at index and keeps the line numbers of the lines that are skipped on writing up to date.
+        """
+        self._reslist.insert(index, item)
+        self.delete_on_write = {i + 1 if i >= index else i for i in self.delete_on_write}
+
+    def _delete_from_reslist(self, index: int) -> None:
+        """
+        Deletes the item at index and keeps the line numbers of the lines that are skipped on writing up to date.
+        """
+        del self._reslist[index]
+        self.delete_on_write = {i - 1 if i > index else i for i in self.delete_on_write if i != index}
 
     def replace_line(self, obj, new_line: str) -> None:
         """
